@@ -27,6 +27,20 @@ type c14Case struct {
 	Ops     []prog.Op     `json:"ops"`
 	Prefix  string        `json:"prefix"`
 	Delim   string        `json:"delim"`
+	// Host: every request names the bucket in the Host header (server with the host base s3.test)
+	Host bool `json:"host,omitempty"`
+}
+
+// c14Addr re-addresses a path-style request for bk0 virtual-host style when the stack has a host base.
+func c14Addr(st *backends.Stack, rq *s3x.Req) *s3x.Req {
+	if len(st.Opts.HostBases) > 0 {
+		rq.Host = "bk0." + st.Opts.HostBases[0]
+		rq.Path = strings.TrimPrefix(rq.Path, "/bk0")
+		if rq.Path == "" {
+			rq.Path = "/"
+		}
+	}
+	return rq
 }
 
 func c14ListUploads(st *backends.Stack, prefix, delim string, max int, km, um string) (*s3x.ListUploadsDoc, *s3x.Resp) {
@@ -46,7 +60,7 @@ func c14ListUploads(st *backends.Stack, prefix, delim string, max int, km, um st
 	if um != "" {
 		q = append(q, "upload-id-marker", um)
 	}
-	r := s3x.Do(st.Handler, &s3x.Req{Method: "GET", Path: "/bk0", Query: s3x.Q(q...)})
+	r := s3x.Do(st.Handler, c14Addr(st, &s3x.Req{Method: "GET", Path: "/bk0", Query: s3x.Q(q...)}))
 	if r.Status != 200 || r.Panic != "" {
 		return nil, r
 	}
@@ -65,7 +79,7 @@ func c14ListParts(st *backends.Stack, u *prog.MUpload, max int, marker string) (
 	if marker != "" {
 		q = append(q, "part-number-marker", marker)
 	}
-	r := s3x.Do(st.Handler, &s3x.Req{Method: "GET", Path: "/bk0/" + u.Key, Query: s3x.Q(q...)})
+	r := s3x.Do(st.Handler, c14Addr(st, &s3x.Req{Method: "GET", Path: "/bk0/" + u.Key, Query: s3x.Q(q...)}))
 	if r.Status != 200 || r.Panic != "" {
 		return nil, r
 	}
@@ -306,9 +320,16 @@ func c14CheckParts(r *prog.Runner, u *prog.MUpload) (ds []disc, info map[string]
 
 func c14Exec(cs c14Case) (ds []disc, info map[string]int) {
 	info = map[string]int{}
-	st := backends.Must(cs.Backend, backends.Options{})
+	var o backends.Options
+	if cs.Host {
+		o.HostBases = []string{"s3.test"}
+	}
+	st := backends.Must(cs.Backend, o)
 	defer st.Close()
 	r := prog.NewRunner(st)
+	if cs.Host {
+		r.Addr = func(bucket, rest string) (string, string) { return bucket + ".s3.test", "/" + rest }
+	}
 	if !st.Kind.IsSingle() {
 		if d := r.Step(prog.Op{K: "mkbucket", B: "bk0"}); len(d) > 0 {
 			return d, info
@@ -359,7 +380,7 @@ func TestC14(t *testing.T) {
 	runProp(t, propDef{
 		ID:    "C14",
 		Level: "exploration",
-		Rule: "cases = (backend, multipart history over keys {a, a/b, a/c, d, ...; some with bytes below '/', leading white space, or the two-byte character é} with up to 3 uploads per key and part numbers with gaps, prefix, delimiter absent, '/' or 'é'); for each history: ListMultipartUploads is compared with the model's pending uploads " +
+		Rule: "cases = (backend, multipart history over keys {a, a/b, a/c, d, ...; some with bytes below '/', leading white space, or the two-byte character é} with up to 3 uploads per key and part numbers with gaps, prefix, delimiter absent, '/' or 'é', bucket named in the path or in the Host header); for each history: ListMultipartUploads is compared with the model's pending uploads " +
 			"(order by key then initiation, prefix/delimiter grouping), walked with every max-uploads 1..n+1 following NextKeyMarker/NextUploadIdMarker; ListParts of every pending upload is compared with the held parts and walked with every max-parts 1..n+1, " +
 			"plus arbitrary numeric part-number markers (0, existing, in a gap, highest, beyond, 10000, 2^31); non-trivial = a walk with >= 2 pages over >= 2 keys, or parts with a gap, or a second ListParts page; distinct by the full case",
 		Replay: c14Replay,
@@ -425,6 +446,9 @@ func c14Run(t *testing.T, c *evid.Collector) {
 	record := func(cs c14Case, ds []disc, info map[string]int, src string) bool {
 		nt := (info["multi-page-upload-walks"] > 0 && info["keys-with-uploads"] >= 2) || info["gaps"] > 0 || info["multi-page-part-walks"] > 0
 		ls := []string{"backend:" + string(cs.Backend), "src:" + src}
+		if cs.Host {
+			ls = append(ls, "host-style")
+		}
 		for _, k := range []string{"multi-page-upload-walks", "gaps", "multi-page-part-walks", "arbitrary-markers", "prefixes"} {
 			if info[k] > 0 {
 				ls = append(ls, k)
@@ -468,11 +492,37 @@ func c14Run(t *testing.T, c *evid.Collector) {
 				}
 			}
 		}
+		// the same bookkeeping when the bucket is named in the Host header; and keys with an empty path
+		// segment, which are keys of their own in either form of addressing (key-value backends)
+		hh := [][]prog.Op{
+			hs[1], hs[3], hs[4],
+			{ini("a//b"), ini("a/b"), ini("a//b"), {K: "part", Ref: 0, PartN: 1, Body: b("one")}, {K: "part", Ref: 1, PartN: 2, Body: b("two")}, ini("d//x"), {K: "abort", Ref: 2}, ini("a/b")},
+		}
+		for _, k := range kinds {
+			if k.IsFs() {
+				continue
+			}
+			for hi, h := range hh {
+				for _, host := range []bool{false, true} {
+					if !host && hi < 3 {
+						continue
+					}
+					for _, pd := range pds {
+						if pd[1] == "/" && strings.HasPrefix(pd[0], "a/") {
+							continue // the rest of a//b would begin with the delimiter
+						}
+						cs := c14Case{Backend: k, Ops: h, Prefix: pd[0], Delim: pd[1], Host: host}
+						ds, info := c14Exec(cs)
+						record(cs, ds, info, "fixed-host")
+					}
+				}
+			}
+		}
 	}
 	rapidRun(t, "random", evid.Scale(700, 15000), func(rt *rapid.T) {
 		k := rapid.SampledFrom(kinds).Draw(rt, "backend")
 		pd := rapid.SampledFrom(pds).Draw(rt, "pd")
-		cs := c14Case{Backend: k, Ops: c14GenProgram(rt), Prefix: pd[0], Delim: pd[1]}
+		cs := c14Case{Backend: k, Ops: c14GenProgram(rt), Prefix: pd[0], Delim: pd[1], Host: rapid.IntRange(0, 3).Draw(rt, "host") == 0}
 		ds, info := c14Exec(cs)
 		if record(cs, ds, info, "random") {
 			rt.Fatalf("C14 violated: %v", ds)
